@@ -19,7 +19,7 @@ FAIL = dict(effects=0.15, enqueue=0.1, fail=0.4)
 LONG = dict(effects=0.2, enqueue=0.15, nops=120, stop=0.1)
 
 PROFILES = {
-    'C01': [(['m01', 'm02', 'm03', 'm05', 'm09', 'm10'], PLAIN, 150, 1500, None),
+    'C01': [(['m01', 'm02', 'm03', 'm05', 'm09', 'm10', 'm20'], PLAIN, 150, 1500, None),
             (['m02', 'm03'], FXL, 60, 600, None)],
     'C02': [(['m01', 'm02', 'm03', 'm04', 'm05', 'm06', 'm10', 'm17'], PLAIN, 120, 1200, None),
             (['m01', 'm03', 'm05'], FXL, 60, 600, None)],
@@ -27,7 +27,7 @@ PROFILES = {
             # submissions from exception_caught / no_transition: failpoints + effects attached to those callbacks
             (['m01', 'm02', 'm03', 'm06', 'm11', 'm17'], dict(effects=0.5, enqueue=0.1, fail=0.5, effect_kinds='CTGAN'), 100, 1000, None),
             (['m05', 'm08', 'm12', 'm13'], FX, 80, 800, None)],
-    'C05': [(['m07', 'm11'], FX, 250, 2500, None),
+    'C05': [(['m07', 'm11', 'm20'], FX, 250, 2500, None),
             (['m12'], FX, 250, 2500, None),
             (['m13'], FX, 250, 2500, None),
             (['m07'], LONG, 30, 300, None)],
